@@ -16,7 +16,7 @@ struct EvMeta { kind: &'static str, author: usize, epoch_hint: u64 }
 struct Gen {
     r: Rng, n: usize, admin_mask: u64, next_ev: u64, next_msg: u64,
     evs: BTreeMap<u64, EvMeta>, regime_causal: bool, immediate: bool,
-    client_epoch: Vec<u64>,
+    client_epoch: Vec<u64>, delivered: BTreeSet<u64>, left: Option<usize>,
 }
 
 impl Gen {
@@ -36,10 +36,21 @@ impl Gen {
         if k < 22 {
             if !pending.is_empty() {
                 let (m, ev) = *self.r.pick(&pending);
-                if self.immediate || self.r.chance(1, 3) { return format!("PR MERGE {m} {ev}"); }
+                if self.immediate { return format!("PR MERGE {m} {ev}"); }
             }
         }
-        if k < 24 && !pending.is_empty() { let (m, _) = *self.r.pick(&pending); return format!("PR CLEAR {m}"); }
+        // clear_pending_commit is for commits whose publication failed: only unpublished ones are cleared, and they are never delivered
+        if k < 24 { if let Some((m, ev)) = pending.iter().find(|(_, e)| !self.delivered.contains(e)).cloned() { self.evs.remove(&ev); return format!("PR CLEAR {m}"); } }
+        if k < 26 && self.left.is_none() && self.n > 3 && m != 0 && self.r.chance(1, 4) {
+            let ev = self.next_ev; self.next_ev += 1; self.left = Some(m);
+            self.evs.insert(ev, EvMeta { kind: "prop", author: m, epoch_hint: self.client_epoch[m] });
+            return format!("PR LEAVE {m} {ev} {}", self.ts());
+        }
+        if k < 28 {
+            let ev = self.next_ev; self.next_ev += 1;
+            self.evs.insert(ev, EvMeta { kind: "bad", author: 99, epoch_hint: 0 });
+            return format!("PR BAD {ev} {} {}", self.ts(), self.r.below(5));
+        }
         if k < 40 {
             let ev = self.next_ev; self.next_ev += 1; let msg = self.next_msg; self.next_msg += 1;
             self.evs.insert(ev, EvMeta { kind: "app", author: m, epoch_hint: self.client_epoch[m] });
@@ -52,10 +63,29 @@ impl Gen {
             let ev = *self.r.pick(&ids);
             let meta = self.evs[&ev].clone();
             if self.regime_causal && meta.epoch_hint > self.client_epoch[m] { continue; }
+            self.delivered.insert(ev);
             return format!("PR DELIVER {m} {ev}");
         }
+        self.delivered.insert(ids[0]);
         format!("PR DELIVER {m} {}", ids[0])
     }
+}
+
+/// Ground truth about one history, gathered while it runs (never from the outcome being judged).
+#[derive(Default)]
+struct Truth {
+    retention: u64,
+    visited: Vec<BTreeSet<u64>>,          // state names each client has held
+    ahead: Vec<(usize, u64)>,             // (client, event) offered before the client had visited the event's creation state
+    beyond_retention: bool,               // some commit was first offered to a client more than `retention` epochs late
+    merges: Vec<(usize, u64)>,
+    late: BTreeSet<(usize, u64)>,          // application messages first offered when the receiver's epoch differed from the sender's
+    refusal_changed: Vec<String>,
+}
+
+fn strip(fp: &str) -> String {
+    // observable projection used by the frame oracles: everything except the result kind, the dedup record and the rollback counter
+    fp.split(' ').filter(|t| !(t.starts_with("res=") || t.starts_with("dd=") || t.starts_with("rb="))).collect::<Vec<_>>().join(" ")
 }
 
 fn run_world<S: MdkStorageProvider, F: Fn(usize) -> S>(run: &mut Run, lines_in: Option<Vec<String>>, r: &mut Rng, nhist: u64, steps: u64, mk: F, backend: &str) {
@@ -65,7 +95,6 @@ fn run_world<S: MdkStorageProvider, F: Fn(usize) -> S>(run: &mut Run, lines_in: 
         for l in lines {
             let t: Vec<&str> = l.split(' ').collect();
             if t[1] == "RESET" { world = Some(World::new(t[2].parse().unwrap(), t[3].parse().unwrap(), t[4].parse().unwrap(), &mk)); push(run, "RESET", false, l.clone(), "RESET".into()); continue; }
-            if t[1] == "BAD" { push(run, "BAD", false, l.clone(), "ok".into()); continue; }
             let (line, fp) = world.as_mut().unwrap().exec(&l);
             push(run, "replay", true, line, fp);
         }
@@ -74,42 +103,86 @@ fn run_world<S: MdkStorageProvider, F: Fn(usize) -> S>(run: &mut Run, lines_in: 
     for h in 0..nhist {
         let n = 3 + r.below(2) as usize;
         let admin_mask = 1 | (r.below(1 << n) & !1) ;
-        let retention = *r.pick(&[5usize, 5, 5, 1, 2, 0]);
+        let retention = *r.pick(&[5usize, 5, 5, 5, 5, 2, 1, 0]);
         let mut g = Gen { r: r.fork(), n, admin_mask, next_ev: 0, next_msg: 1, evs: BTreeMap::new(),
-                          regime_causal: h % 3 != 2, immediate: h % 4 == 3, client_epoch: vec![1; n] };
+                          regime_causal: h % 3 != 2, immediate: h % 4 == 3, client_epoch: vec![1; n], delivered: BTreeSet::new(), left: None };
         let mut w: World<S> = World::new(n, admin_mask, retention, &mk);
         let reset = format!("PR RESET {n} {admin_mask} {retention}");
         let mut seq: Vec<String> = vec![reset.clone()];
         push(run, "RESET", false, reset, "RESET".into());
         let nsteps = steps / 2 + g.r.below(steps);
         let mut rolled = false;
+        let mut truth = Truth { retention: retention as u64, visited: vec![BTreeSet::from([0u64]); n], ..Default::default() };
         for _ in 0..nsteps {
             let l = g.next(&w);
-            let (line, fp) = w.exec(&l);
+            let (line, fp) = step(&mut w, &l, &mut truth, run, backend, &seq);
             if fp == "skip" { continue; }
             // keep generator's view of epochs in step with reality (record epoch printed as ep=)
-            if let Some(m) = l.split(' ').nth(2).and_then(|x| x.parse::<usize>().ok()) { g.client_epoch[m] = w.mls_epoch(m); }
+            if !l.starts_with("PR BAD") { if let Some(m) = l.split(' ').nth(2).and_then(|x| x.parse::<usize>().ok()) { g.client_epoch[m] = w.mls_epoch(m); } }
             if fp == "PANIC" { run.oracle_fail("C06", "", format!("[{backend}] panic in `{l}`"), seq.join(" || ") + " || " + &line); }
             if fp.contains(" rb=") && !fp.ends_with(" rb=0") { rolled = true; }
             let class = l.split(' ').nth(1).unwrap().to_string();
             seq.push(line.clone());
             push(run, &class, rolled, line, fp);
         }
-        oracles(run, &mut w, &mut seq, backend);
+        let live: BTreeSet<u64> = g.evs.keys().cloned().collect();
+        oracles(run, &mut w, &mut seq, backend, &live, &mut truth);
+    }
+}
+
+/// Execute one line, maintaining the ground truth and evaluating the per-step oracles (C06 refusal frame).
+fn step<S: MdkStorageProvider>(w: &mut World<S>, l: &str, truth: &mut Truth, run: &mut Run, backend: &str, seq: &[String]) -> (String, String) {
+    let t: Vec<&str> = l.split(' ').collect();
+    let m: usize = t[2].parse().unwrap_or(0);
+    let before = if t[1] == "DELIVER" { Some(strip(&w.fingerprint(m, "-", None, None))) } else { None };
+    if t[1] == "DELIVER" {
+        let ev: u64 = t[3].parse().unwrap();
+        if let Some(info) = w.events.get(&ev) {
+            if !truth.visited[m].contains(&info.state) { truth.ahead.push((m, ev)); }
+            if info.kind == "commit" && w.mls_epoch(m) > info.epoch + truth.retention { truth.beyond_retention = true; }
+            if info.kind == "app" && w.mls_epoch(m) != info.epoch { truth.late.insert((m, ev)); }
+        }
+    }
+    if t[1] == "MERGE" { truth.merges.push((m, t[3].parse().unwrap())); }
+    let (line, fp) = w.exec(l);
+    if let Some(st) = fp.split(" st=").nth(1).and_then(|x| x.split(' ').next()).and_then(|x| x.parse::<u64>().ok()) { truth.visited[m].insert(st); }
+    // C06: a refused event has no effect on the observable projection
+    if let Some(b) = before {
+        let refused = ["res=Err", "res=Unprocessable", "res=PreviouslyFailed", "res=IgnoredProposal"].iter().any(|k| fp.starts_with(k));
+        if refused && strip(&fp) != b {
+            let cls = "";
+            run.oracle_fail("C06", cls, format!("[{backend}] refused event changed the client's state: `{l}` -> {fp}; before: {b}"), seq.join(" || ") + " || " + &line);
+        }
+    }
+    (line, fp)
+}
+
+/// The state MIP-03 selects: from the join state follow, at every epoch, the authorised child commit with the
+/// earliest wrapper timestamp, ties broken by the smallest event id (independent reference, ~15 lines).
+fn canonical<S: MdkStorageProvider>(w: &World<S>, live: &BTreeSet<u64>) -> Vec<u64> {
+    let mut chain = vec![0u64];
+    loop {
+        let cur = *chain.last().unwrap();
+        let best = w.events.iter()
+            .filter(|(e, i)| i.kind == "commit" && i.state == cur && (live.contains(e) || **e >= 1000))
+            .min_by_key(|(_, i)| (i.ts, mdk_verif_harness::world::id_order_key(&i.event.id)));
+        match best { Some((e, _)) => chain.push(e + 1), None => return chain }
     }
 }
 
 /// After the random part: offer every event to every member again until nothing changes (C01's premise), then
 /// evaluate the property oracles on the implementation.  Lines executed here are part of the correspondence too.
-fn oracles<S: MdkStorageProvider>(run: &mut Run, w: &mut World<S>, seq: &mut Vec<String>, backend: &str) {
+fn oracles<S: MdkStorageProvider>(run: &mut Run, w: &mut World<S>, seq: &mut Vec<String>, backend: &str, live: &BTreeSet<u64>, truth: &mut Truth) {
     let n = w.clients.len();
-    let evs: Vec<u64> = w.events.keys().cloned().collect();
+    let evs: Vec<u64> = w.events.keys().cloned().filter(|e| live.contains(e) || *e >= 1000).collect();
     let mut last: Vec<String> = (0..n).map(|c| w.fingerprint(c, "-", None, None)).collect();
     for _pass in 0..6 {
-        for &ev in &evs {
+        // events named in rollback notifications are re-offered as part of "everything again"
+        let evs_now: Vec<u64> = w.events.keys().cloned().filter(|e| live.contains(e) || *e >= 1000).collect();
+        for &ev in &evs_now {
             for c in 0..n {
                 let l = format!("PR DELIVER {c} {ev}");
-                let (line, fp) = w.exec(&l);
+                let (line, fp) = step(w, &l, truth, run, backend, seq);
                 seq.push(line.clone());
                 run.case("DELIVER-quiesce", true, line, fp);
             }
@@ -118,45 +191,69 @@ fn oracles<S: MdkStorageProvider>(run: &mut Run, w: &mut World<S>, seq: &mut Vec
         if now == last { break; }
         last = now;
     }
+    let _ = evs;
+    let evs: Vec<u64> = w.events.keys().cloned().filter(|e| live.contains(e) || *e >= 1000).collect();
     // C07: one more re-delivery of everything changes nothing observable
-    let before: Vec<String> = (0..n).map(|c| w.fingerprint(c, "-", None, None)).collect();
+    let before: Vec<String> = (0..n).map(|c| strip(&w.fingerprint(c, "-", None, None))).collect();
     for &ev in &evs { for c in 0..n {
         let l = format!("PR DELIVER {c} {ev}");
         let (line, fp) = w.exec(&l);
         seq.push(line.clone());
         run.case("DELIVER-again", true, line, fp);
-        let after = w.fingerprint(c, "-", None, None);
+        let after = strip(&w.fingerprint(c, "-", None, None));
         if after != before[c] {
             run.oracle_fail("C07", "", format!("[{backend}] re-delivering event {ev} to member {c} after quiescence changed its state: {} -> {}", before[c], after), seq.join(" || "));
             return;
         }
     } }
-    // C01: all remaining (active) members hold the same MLS state
-    let auths: BTreeSet<String> = (0..n).filter(|&c| before[c].contains(" act=1 ")).map(|c| w.auth(c)).collect();
-    if auths.len() > 1 {
-        let detail: Vec<String> = (0..n).map(|c| format!("m{c}:{}", before[c].split(" props=").next().unwrap_or(""))).collect();
-        let class = classify_divergence(w, seq);
-        run.oracle_fail("C01", &class, format!("[{backend}] members did not converge after every event was re-offered until nothing changed: {}", detail.join(" ; ")), seq.join(" || "));
+    // ---- ground-truth classification of the history (premises of the convergence theorem)
+    let chain = canonical(w, live);
+    let on_chain = |st: u64| chain.contains(&st);
+    let fork_merge = truth.merges.iter().any(|(_, ev)| { let p = w.events.get(ev).map(|i| i.state); w.events.iter().any(|(e2, i2)| e2 != ev && i2.kind == "commit" && Some(i2.state) == p && (live.contains(e2) || *e2 >= 1000)) });
+    let ahead_on_chain = truth.ahead.iter().any(|(_, ev)| w.events.get(ev).map(|i| on_chain(i.state)).unwrap_or(false));
+    let class = if fork_merge { "merge-pending-commit-takes-no-snapshot" } else if ahead_on_chain { "event-offered-ahead-of-its-predecessor-never-retried" } else { "" };
+    let in_scope = !truth.beyond_retention;
+    run.count(if !in_scope { "history:fork-deeper-than-retention" } else if class.is_empty() { "history:in-proved-regime" } else { "history:known-class" });
+    // C01: all remaining (active) members hold the state MIP-03 selects
+    let target = *chain.last().unwrap();
+    let states: Vec<u64> = (0..n).map(|c| w.sigma_of(c, None).parse::<u64>().unwrap_or(9999)).collect();
+    let active: Vec<usize> = (0..n).filter(|&c| before[c].contains(" act=1 ")).collect();
+    if in_scope && active.iter().any(|&c| states[c] != target) {
+        let detail: Vec<String> = (0..n).map(|c| format!("m{c}:st={} ep={}", states[c], w.mls_epoch(c))).collect();
+        run.oracle_fail("C01", class, format!("[{backend}] after every event was re-offered until nothing changed, members are not all at the MIP-03-selected state {target} (chain {:?}): {}", chain, detail.join(" ")), seq.join(" || "));
+    }
+    // C02: messages created on the winning branch are stored exactly once and valid everywhere; losing-branch messages are not valid
+    if in_scope {
+        for (ev, info) in w.events.clone().iter().filter(|(e, i)| i.kind == "app" && live.contains(e)) {
+            let (msgno, _) = info.msg.unwrap();
+            for &c in &active {
+                if states[c] != target { continue; }
+                let fp = &before[c];
+                let entry = fp.split(" msgs=").nth(1).unwrap_or("").split(',').find(|x| x.split(':').next() == Some(&msgno.to_string())).map(|x| x.to_string());
+                let valid = entry.as_ref().map(|e| { let st = e.split(':').nth(1).unwrap_or(""); st == "1" || (st == "0" && false) }).unwrap_or(false);
+                if on_chain(info.state) && !valid {
+                    let late = truth.ahead.iter().any(|(cc, e)| *cc == c && e == ev);
+                    let cls = if !class.is_empty() { class } else if late { "event-offered-ahead-of-its-predecessor-never-retried" } else if truth.late.contains(&(c, *ev)) { "message-filed-under-receivers-epoch" } else { "" };
+                    run.oracle_fail("C02", cls, format!("[{backend}] winning-branch message {msgno} (event {ev}, sent at state {}) is {} at member {c}", info.state, entry.clone().unwrap_or("missing".into())), seq.join(" || "));
+                }
+                if !on_chain(info.state) && entry.as_ref().map(|e| { let st = e.split(':').nth(1).unwrap_or(""); st == "1" || st == "0" }).unwrap_or(false) {
+                    run.oracle_fail("C02", if class.is_empty() { "losing-branch-message-left-valid" } else { class }, format!("[{backend}] losing-branch message {msgno} (sent at state {}) is still marked valid ({}) at converged member {c}", info.state, entry.unwrap()), seq.join(" || "));
+                }
+            }
+        }
     }
     // C08: stored record mirrors the MLS state
     for c in 0..n {
         let f = &before[c];
         if !f.contains(" act=1 ") { continue; }
-        let ep = f.split(" ep=").nth(1).and_then(|x| x.split(' ').next()).unwrap_or("");
+        let ep = f.split("ep=").nth(1).and_then(|x| x.split(' ').next()).unwrap_or("");
         let mls = f.split(" mls=").nth(1).and_then(|x| x.split(' ').next()).unwrap_or("");
         if ep != mls { run.oracle_fail("C08", "", format!("[{backend}] member {c}: record epoch {ep} differs from MLS epoch {mls}"), seq.join(" || ")); }
     }
 }
 
-/// Known-finding classes for C01 divergence, decided from the history text (ground truth), not from the outcome.
-fn classify_divergence<S: MdkStorageProvider>(_w: &World<S>, seq: &[String]) -> String {
-    let has_merge = seq.iter().any(|l| l.starts_with("PR MERGE"));
-    if has_merge { return "immediate-merge-no-snapshot".into(); }
-    "".into()
-}
-
 fn main() {
-    std::panic::set_hook(Box::new(|_| {}));
+    if std::env::var("VERIF_SHOW_PANIC").is_err() { std::panic::set_hook(Box::new(|_| {})); }
     let backend = arg("--backend").unwrap_or("mem".into());
     let out = arg("--out").unwrap_or(format!("/verif/.cache/run/proto-{backend}"));
     let mut run = Run::new(&out, "random histories of 3-4 real MDK clients (self-update and rename commits incl. concurrent ones on the same epoch, application messages, own-commit echo vs immediate merge, clear, duplicates, epoch-causal and unrestricted delivery, retention 0/1/2/5, few distinct wrapper timestamps to force ties), followed by re-offering every event to every member until nothing changes; every step's public-API fingerprint is compared with the extracted engine model; non-trivial = step executed after the first rollback of its history, or in the quiescence phase");
